@@ -73,7 +73,7 @@ static void DecodeAdr(tStrComp const* pArg, Byte Erl) {
     int     z;
     Byte    RegFlag;
     Boolean OK;
-    LongInt DispAcc;
+    LargeInt DispAcc;
 
     AdrType = ModNone;
     AdrCnt  = 0;
@@ -102,7 +102,7 @@ static void DecodeAdr(tStrComp const* pArg, Byte Erl) {
         tStrComp Arg, Remainder;
         char*    EPos;
         Boolean  NegFlag, NNegFlag, FirstFlag;
-        LongInt  DispPart;
+        LargeInt DispPart;
 
         StrCompRefRight(&Arg, pArg, 1);
         StrCompShorten(&Arg, 1);
